@@ -238,7 +238,7 @@ Lemma step_Inv c s o : Inv s -> fdel (snd s) = false -> op_ok s o ->
   Inv (step_st c s o) /\ fdel (snd (step_st c s o)) = false.
 Proof.
   destruct s as [e n]. unfold Inv, step_st; simpl. intros HI Fd Hok.
-  destruct o as [id f|i f1 f2|w ks|ks|k v f|dt| |g s0 d|k g ttl]; simpl.
+  destruct o as [id f|i f1 f2|w ks|ks|k v f|dt| |g s0 d|k g ttl|kc]; simpl.
   - pose proof (take_pk_upd (goodP (db e)) c f e n id) as T.
     destruct (take_pk c f e n id) as [[e' n'] r]. simpl.
     destruct T as [U D].
@@ -286,6 +286,7 @@ Proof.
     eapply upd_Inv; [apply upd_do_tick | exact HI].
   - split; [exact HI | exact Hok].
   - split; [|assumption]. eapply upd_Inv; [|exact HI]. apply upd_setex. exact I.
+  - split; [exact HI | exact Fd].
 Qed.
 
 Fixpoint hist_ok (c : cfg) (s : env * node) (ops : list op) : Prop :=
@@ -371,7 +372,7 @@ Proof.
   destruct s as [e n]. unfold alive, step_st. simpl. intros (A & B & C) H.
   assert (G : forall n', upd (fun _ _ _ => True) n n' -> fget n' = false /\ fset n' = false /\ fdel n' = false).
   { intros n' (_ & E1 & E2 & E3 & _). repeat split; congruence. }
-  destruct o as [id f|i f1 f2|w ks|ks|k v f|dt| |g s0 d|k g ttl]; simpl.
+  destruct o as [id f|i f1 f2|w ks|ks|k v f|dt| |g s0 d|k g ttl|kc]; simpl.
   - pose proof (take_pk_upd (fun _ _ _ => True) c f e n id) as T.
     destruct (take_pk c f e n id) as [[e' n'] r]. apply G. apply T; auto.
   - pose proof (query_row_index_upd (fun _ _ _ => True) c f1 f2 e n i) as T.
@@ -383,6 +384,7 @@ Proof.
   - auto.
   - apply G. apply upd_do_tick.
   - destruct H as (-> & -> & ->). auto.
+  - auto.
   - auto.
 Qed.
 
